@@ -300,6 +300,9 @@ func (flowMod) near() []nearDelta {
 }
 func (m flowMod) mk(e el) *flow.Rule {
 	res := cres(e.Res)
+	if p, ok := param(e.Tok); ok {
+		return flowParam(e, p)
+	}
 	r := &flow.Rule{ID: id(e), Resource: res}
 	if i := nearIdx(m, e.Tok); i >= 0 {
 		r = m.mk(el{baseTok(e.Tok), e.Res})
@@ -461,6 +464,9 @@ func (isoMod) probeTable() map[string][]string {
 // are the base tokens, 4 is the only neighbour that is not another token
 func (isoMod) near() []nearDelta { return []nearDelta{blk("R3", "Threshold 4", "p4")} }
 func (m isoMod) mk(e el) *isolation.Rule {
+	if p, ok := param(e.Tok); ok {
+		return isoParam(e, p)
+	}
 	r := &isolation.Rule{ID: id(e), Resource: cres(e.Res), MetricType: isolation.Concurrency}
 	if i := nearIdx(m, e.Tok); i >= 0 {
 		r.Threshold = 4
@@ -585,6 +591,9 @@ func (hotMod) near() []nearDelta {
 	return out
 }
 func (m hotMod) mk(e el) *hotspot.Rule {
+	if p, ok := param(e.Tok); ok {
+		return hotParam(e, p)
+	}
 	r := &hotspot.Rule{ID: id(e), Resource: cres(e.Res), MetricType: hotspot.QPS, DurationInSec: 1}
 	if i := nearIdx(m, e.Tok); i >= 0 {
 		r = m.mk(el{baseTok(e.Tok), e.Res})
@@ -767,6 +776,9 @@ func (cbMod) mk(e el) *cb.Rule {
 	if e.Tok == "Nil" {
 		return nil
 	}
+	if p, ok := param(e.Tok); ok {
+		return cbParam(e, p)
+	}
 	if i := nearIdx(cbMod{}, e.Tok); i >= 0 {
 		r := cbRule(el{baseTok(e.Tok), e.Res}, cres(e.Res))
 		r.Id = id(e)
@@ -929,6 +941,9 @@ func (sysMod) near() []nearDelta {
 	return out
 }
 func (m sysMod) mk(e el) *system.Rule {
+	if p, ok := param(e.Tok); ok {
+		return sysParam(e, p)
+	}
 	r := &system.Rule{ID: id(e), Strategy: system.NoAdaptive}
 	if i := nearIdx(m, e.Tok); i >= 0 {
 		r = m.mk(el{baseTok(e.Tok), e.Res})
@@ -1103,6 +1118,9 @@ func (outMod) near() []nearDelta {
 func (m outMod) mk(e el) *outlier.Rule {
 	if e.Tok == "Nil" {
 		return nil
+	}
+	if p, ok := param(e.Tok); ok {
+		return outParam(e, p)
 	}
 	if i := nearIdx(m, e.Tok); i >= 0 {
 		r := m.mk(el{baseTok(e.Tok), e.Res})
@@ -1326,6 +1344,7 @@ func main() {
 	defer out.Close()
 
 	var m module
+	var scn0 hx.M // the "new" record of the running scenario
 	var table map[string][]string
 	bad := 0
 	dead := false // a call of the running scenario panicked: the rest of it is not executed
@@ -1333,6 +1352,7 @@ func main() {
 		op := hx.Str(s, "op")
 		switch op {
 		case "new":
+			scn0 = s
 			clearEverything()
 			adv(60000)
 			tr = hx.Int(s, "tr")
@@ -1347,6 +1367,18 @@ func main() {
 				}
 			}
 			dead = false
+			params, sweep = nil, nil
+			if ps, ok := s["params"].(map[string]interface{}); ok { // a parameter-sweep scenario
+				params = map[string]prec{}
+				for k, x := range ps {
+					params[k] = prec(x.(map[string]interface{}))
+				}
+				if l, ok := s["sweep"].([]interface{}); ok {
+					for _, x := range l {
+						sweep = append(sweep, x.(map[string]interface{}))
+					}
+				}
+			}
 			perRes, rejects, ordered, _ := m.desc()
 			varn := hx.M{}
 			for k := range vars {
@@ -1363,8 +1395,12 @@ func main() {
 				near[t] = baseTok(t)
 			}
 			table = scenarioProbeTable(m)
-			out.Emit(hx.M{"op": "new", "tr": tr, "mod": hx.Str(s, "mod"), "perres": perRes, "rejects": rejects, "ordered": ordered,
-				"invalid": []string{"I1", "I2", "I3", "Nil"}, "res": m.resources(), "probes": table, "near": near, "var": varn})
+			rec := hx.M{"op": "new", "tr": tr, "mod": hx.Str(s, "mod"), "perres": perRes, "rejects": rejects, "ordered": ordered,
+				"invalid": []string{"I1", "I2", "I3", "Nil"}, "res": m.resources(), "probes": table, "near": near, "var": varn}
+			if params != nil {
+				rec["params"] = s["params"] // the records the rules are built from, as given
+			}
+			out.Emit(rec)
 		case "load", "clear":
 			if dead {
 				continue
@@ -1418,7 +1454,11 @@ func main() {
 						all[k] = pairs(v)
 					}
 					for _, r := range m.resources() {
-						probes = append(probes, m.probe(r)...)
+						if params != nil { // parameter sweep: the probes the scenario lists
+							probes = append(probes, sweepProbes(hx.Str(scn0, "mod"), r)...)
+						} else {
+							probes = append(probes, m.probe(r)...)
+						}
 					}
 				}()
 			}
